@@ -91,7 +91,7 @@ ObsApply(o, e) ==
     [] e.e = "AddRcpt" -> ObsAddRcpt(o, cfg, e.ad, e.res, SnapOf(e))
     [] e.e = "Delete"  -> ObsDelete(o, e.acct, SnapOf(e))
     [] e.e = "Login"   -> ObsLogin(o, e.acct, e.res, SnapOf(e))
-    [] e.e = "Body"    -> ObsBody(o, cfg, OutsOf(e), CallsOf(e), e.res, SnapOf(e))
+    [] e.e = "Body"    -> ObsBody(o, cfg, OutsOf(e), CallsOf(e), e.fault, e.res, SnapOf(e))
     [] e.e = "Commit"  -> ObsCommit(o, e.res, SnapOf(e))
     [] e.e = "Abort"   -> ObsAbort(o, SnapOf(e))
     [] e.e = "End"     -> ObsEnd(o, e.orphans)
